@@ -1149,7 +1149,7 @@ def _is_enclosed_or_line(
             lns = set(lns)
 
             for i in range(ln, end_ln):  # set any line that follows a line continuation `\` as a continuation (not normally set by _multiline_str_* functions)
-                if lines[i].endswith('\\'):  # this is fine whether it is part of string or not
+                if _re_line_end_cont.match(lines[i], col if i == ln else 0):  # not just .endswith('\\') because a comment between implicit string parts can end with a backslash, lines continued inside a string are already in `lns`
                     lns.add(i + 1)
 
             if (ret := len(lns) == end_ln - ln) or out_lns is None:
